@@ -492,7 +492,7 @@ def gen_c08(rng, quick=True):
     if kind == "kk":
         n = rng.randint(14, 24 if quick else 36)
         entry = rng.choice(["evaluate_log_F_ext", "perform_kramers_kronig_test", "perform_exploratory_kramers_kronig_tests"])
-        test = rng.choice(KK_LINEAR * 3 + ["cnls"])
+        test = rng.choice(KK_LINEAR * 2 + ["cnls", "cnls", "cnls"])
         kwargs = {"test": test, "add_capacitance": rng.random() < 0.7, "add_inductance": True if test.endswith("-inv") else rng.random() < 0.7,
                   "num_F_ext_evaluations": rng.choice([0, 0, 10, 10, 14, -10])}
         kwargs["admittance"] = (rng.random() < 0.4) if entry == "evaluate_log_F_ext" else rng.choice([False, True, None])
@@ -539,7 +539,7 @@ def gen_c08(rng, quick=True):
         if m == "tr-nnls":
             kwargs = {"method": m, "mode": rng.choice(["real", "imaginary", "complex"]), "lambda_value": rng.choice([-1.0, -2.0, 1e-3])}
         elif m == "lm":
-            kwargs = {"method": m, "model_order": rng.choice([0, 2, 3])}
+            kwargs = {"method": m, "model_order": rng.choice([0, 0, 2, 3]), "model_order_method": rng.choice(["matrix_rank", "pseudo_chisqr"])}
         elif m == "bht":
             kwargs = {"method": m, "num_attempts": rng.randint(1, 3), "num_samples": 10}
             stochastic = True
@@ -560,7 +560,7 @@ def gen_c08(rng, quick=True):
     wl["kind"] = kind
     wl["stochastic"] = stochastic
     wl["data"] = {
-        "cdc": cdc, "logf": logf, "n": n, "noise_pct": rng.choice([0.0, 0.1, 0.5]),
+        "cdc": cdc, "logf": logf, "n": n, "noise_pct": rng.choice([0.0, 0.01, 0.1, 0.5]),
         "noise_seed": rng.randrange(10**6), "mask": _masked(rng, n), "order": "desc",
     }
     return wl
